@@ -4,3 +4,4 @@ pub mod pattern;
 pub mod summary;
 pub mod hash;
 pub mod distinfo;
+pub mod pkgpath;
